@@ -494,6 +494,9 @@ mut("C19", "r7-residual-R-at-increment", E + "Models/InElastic/_behavior.py", " 
 mut("C08", "r7-solid-no-orientation", E + "FEM/_group_elem.py", "            n_f[inward_f] *= -1\n", "            pass\n", "Get_pointsInElem")
 same("C08", "r7-solid-orientation-where", E + "FEM/_group_elem.py", "            n_f[inward_f] *= -1\n", "            n_f = np.where(inward_f[:, np.newaxis], -n_f, n_f)\n")
 
+mut("C17", "r7-bourdin-flag-of-the-model", E + "Models/_phasefield.py", "        C = self.__material.C\n        if self.__material.isHeterogeneous:\n", "        C = self.__material.C\n        if self.isHeterogeneous:\n", "__Split_Bourdin")
+same("C17", "r7-bourdin-flag-local", E + "Models/_phasefield.py", "        C = self.__material.C\n        if self.__material.isHeterogeneous:\n", "        material = self.__material\n        C = material.C\n        het = material.isHeterogeneous\n        if het:\n")
+
 
 def apply_edit(root, e):
     if e.get("patch"):
